@@ -32,7 +32,7 @@ READY = True
 LEAN_TARGETS = ["NauyacaVerif.Props.C17", "NauyacaVerif.Props.Tr.UpstreamUrl"]
 THEOREMS = [f"NauyacaVerif.C17.{t}" for t in (
     "proxy_host_fixed", "router_first_match", "router_default", "prefix_route_matches", "proxy_url", "proxy_url_raw", "proxy_map",
-    "proxy_map_slash", "proxy_roundtrip", "defaultPort_tie", "urlParts_tie", "pathSource_tie", "querySource_tie")] + ['NauyacaVerif.Translated.upstreamUrl_eq']
+    "proxy_map_slash", "proxy_roundtrip", "defaultPort_tie")] + ['NauyacaVerif.Translated.upstreamUrl_eq']
 TRANSLATED = ['upstreamUrl']
 EXTRACT = ["defaultPort", "maxRequest"]
 ASSUMPTIONS = [
